@@ -11,6 +11,7 @@ package shell_operator
 // handler returned (no timer needed); later ticks and events cause no execution.
 
 import (
+	"github.com/flant/shell-operator/pkg/task/queue"
 	"context"
 	"fmt"
 	"strings"
@@ -107,9 +108,18 @@ func c17body(mode string, k int, obs *c17obs) func(x *vrt.Exec) {
 		vrt.Exploring(true)
 		envDone := false
 		vrt.GoNamed("env", func() {
+			// mode "listing": what the operator's metrics loop (every 5 s) and the debug command
+			// `queue list` do - walk the queue set - happens while a tick / an event is on its way
+			// to the events handler
+			list := func() {
+				if mode == "listing" {
+					fx.op.TaskQueues.Iterate(func(q *queue.TaskQueue) { _ = q.Length() })
+				}
+			}
 			for i := 1; i <= 3; i++ {
 				vrt.Yield("env-tick")
 				schedulemanager.ZZRunJobs(fx.op.ScheduleManager)
+				list()
 				vrt.Yield("env-kube")
 				for _, ns := range []string{"n1", "n2"} {
 					old, _ := dyn.Resource(cmGVR).Namespace(ns).Get(ctx, "o", metav1.GetOptions{})
@@ -119,6 +129,7 @@ func c17body(mode string, k int, obs *c17obs) func(x *vrt.Exec) {
 					}
 					hub.Notify(cmGVR, "update", old, o)
 				}
+				list()
 			}
 			envDone = true
 		})
@@ -273,7 +284,7 @@ func TestVerifC17(t *testing.T) {
 	maxK := vres.Pick(12, 24)
 	r.Bound("deviation_bound", bound)
 	r.Bound("stop_points_k", maxK+1)
-	modes := []string{"plain", "failing", "inside-handler", "early"}
+	modes := []string{"plain", "failing", "inside-handler", "listing", "early"}
 	r.Bound("modes", modes)
 	shard, shards := vres.Shard()
 	var ord int64
